@@ -296,8 +296,10 @@ pub fn check_case(case: &Case, ctx: &mut Ctx) {
                     judge_fixed(ctx, case, &d, p, &f, mode, Some(&b));
                     judge_exp(ctx, case, &d, p, &e, false, mode, Some(&b));
                     judge_exp(ctx, case, &d, p, &ue, true, mode, None);
-                    ctx.check(f == rf && e == re && ue == rue, "fmt/value-vs-ref", case, || format!("value and reference print differently: {:?}/{:?} {:?}/{:?}", crate::monitor::abbreviate(&f, 80), crate::monitor::abbreviate(&rf, 80), e, re));
-                    ctx.check(ue == e.replace('e', "E"), "fmt/upper-exp-differs", case, || format!("{{:.Pe}} = {:?} but {{:.PE}} = {:?}", e, ue));
+                    // the reference forms are judged on their own (the statement does not require identical text)
+                    judge_fixed(ctx, case, &d, p, &rf, mode, None);
+                    judge_exp(ctx, case, &d, p, &re, false, mode, None);
+                    judge_exp(ctx, case, &d, p, &rue, true, mode, None);
                 }
             }
             let nontrivial = !d.n.is_zero() && (d.s > p as i64 || ndigits(&d.n) as usize > p + 1);
